@@ -308,11 +308,37 @@ def check_siblings(ctx, passed_paths):
     for k, pk, rk in pairs:
         a, b = needed_parts(P[pk]), needed_parts(R[rk])
         if a is None and b is None:
-            # AbsoluteCount: total - weight_needed on the rejection side
-            ctx.ob("R04.4", "pair/%s" % k, True, trivial=True)
+            # AbsoluteCount: the configured count itself on the passing side, total_weight - count on the rejection side
+            SELF = ("param", "self")
+            cnt = ("vfield", ("field", SELF, "threshold"), "AbsoluteCount", "weight")
+            tot = ("field", SELF, "total_weight")
+            rn = nf(R[rk])
+            good = P[pk] == cnt and rn.atoms == {tot: 1, cnt: -1} and not rn.const and not rn.inexact
+            ctx.ob("R04.4", "pair/%s count and total - count" % k, good,
+                   detail="AbsoluteCount: is_passed requires yes >= %s and is_rejected no > %s; the documented rule is the configured "
+                          "count and total_weight - count (a clamped or rescaled count passes a proposal below its configured weight)"
+                          % (show(P[pk])[:100], show(R[rk])[:100]), sample={"passed": show(P[pk])[:80], "rejected": show(R[rk])[:80]})
             continue
         good = a is not None and b is not None and a[0] == b[0] and b[1][0] == "bin" and b[1][1] == "sub" and b[1][3] == a[1] \
             and b[1][2][0] == "call" and b[1][2][1].endswith("Decimal::one")
+        if good:
+            # ... and that base and percentage are the documented ones for the case
+            SELF = ("param", "self")
+            V = ("field", SELF, "votes")
+            tot, ab = ("field", SELF, "total_weight"), ("field", V, "abstain")
+            th = ("field", SELF, "threshold")
+            want = {"AbsolutePercentage": ({tot: 1, ab: -1}, ("vfield", th, "AbsolutePercentage", "percentage")),
+                    "ThresholdQuorum/not expired": ({tot: 1, ab: -1}, ("vfield", th, "ThresholdQuorum", "threshold")),
+                    "ThresholdQuorum/expired": ({("field", V, "yes"): 1, ("field", V, "no"): 1, ("field", V, "veto"): 1},
+                                                ("vfield", th, "ThresholdQuorum", "threshold"))}.get(k)
+            if want is not None:
+                bn = nf(a[0])
+                okb = bn.atoms == want[0] and not bn.const and not bn.inexact and a[1] == want[1]
+                ctx.ob("R04.4", "pair/%s documented base" % k, okb,
+                       detail="case %s measures the Yes weight against %s of base %s; documented: %s of (%s)"
+                              % (k, show(a[1])[:60], bn.show()[:100], show(want[1])[:60],
+                                 " + ".join(("-" if c < 0 else "") + show(t)[:30] for t, c in want[0].items())),
+                       sample={"base": bn.show()[:100]})
         ctx.ob("R04.4", "pair/%s same base, complementary percentage" % k, good,
                detail="is_passed measures %s against base %s with %s, is_rejected against base %s with %s (expected the same base and 1 - p)"
                       % (k, show(a[0])[:100] if a else None, show(a[1])[:60] if a else None, show(b[0])[:100] if b else None, show(b[1])[:80] if b else None),
